@@ -13,6 +13,7 @@ import (
 // intrinsics that llvc ASSUMES (they are kernel code, not part of the
 // verified text).  Evidence records should quote this list.
 var AssumedHelpers = []string{
+	"undef / poison pointer operands: invalid when used on their own path; where a phi merges one with a defined pointer the merged value is the defined one (a refinement LLVM is entitled to)",
 	"bpf_map_lookup_elem(map, key): reads key_size bytes at key (in-bounds obligation on the caller); returns NULL or a pointer to a fresh region of exactly value_size bytes (sizes from the map definition's __type(key/value)); presence and contents are functions of (map version, key bytes); the map version is havocked by every update/delete on the map and by every store through a value pointer of the map; two successful lookups never alias (each returns its own region)",
 	"bpf_map_update_elem(map, key, value, flags): reads key_size bytes at key and value_size bytes at value (obligations); arbitrary return value; contents of the map afterwards unconstrained; no effect on packet, stack or other map values already looked up",
 	"bpf_map_delete_elem(map, key): reads key_size bytes at key (obligation); arbitrary return value; map contents afterwards unconstrained",
